@@ -2,36 +2,19 @@
 
    Anchors: internal/dag/scheduler/node.go  setup (:274-322), setupLog/setupStdout/setupStderr (:344-389),
    setupExec (:155-207), Execute (:117-147), teardown (:390-421, the `done` flag);
-   scheduler.go:143-224 (the worker: on a retry the status is reset to not-started BEFORE the worker tears down).
+   scheduler.go:143-236 (the worker).
+   The model describes the REPAIRED code: 8880f0d (setup resets `done`; the worker of an attempt tears down exactly
+   once, through a worker-local closure, and BEFORE it hands the node back for a retry - no stale teardown can reach
+   the next attempt's files) and f5eca82 (the output is captured into an in-memory buffer, a member of the
+   MultiWriter, instead of an os.Pipe that nobody drains while the command runs).
    Library semantics reproduced (DESIGN.md Appendix B): bufio.Writer (4096 bytes) Write / Flush / ReadFrom,
-   io.MultiWriter, io.Copy into a non-file writer, exec.Cmd sharing one pipe when Stdout == Stderr, os.Pipe (16 pages).
+   io.MultiWriter, io.Copy into a non-file writer, exec.Cmd sharing one pipe when Stdout == Stderr, bytes.Buffer.
 
    The model is polymorphic in the type A of bytes: it can only move bytes, never invent them. *)
 From Coq Require Import List Bool Arith NArith.
 Import ListNotations.
 
 Definition BUFSZ : nat := N.to_nat 4096.      (* bufio default size *)
-(* os.Pipe on Linux: a ring of 16 page-sized slots.  A write first tries to put its sub-page remainder
-   (len mod 4096 bytes) into the last slot if it fits there, the rest goes into fresh slots, one page each
-   (fs/pipe.c, pipe_write).  Nothing reads the capture pipe before the command has exited, so the ring only
-   fills: 65536 bytes fit when they arrive page-aligned, as little as 32769 can block with unlucky chunking. *)
-Definition PAGE : nat := N.to_nat 4096.
-Definition NSLOTS : nat := 16.
-Definition HALFPIPE : nat := 8 * PAGE.
-
-(* slots: fill of each used slot, newest first; None = the write does not fit (it blocks for good) *)
-Definition pipe_put (slots : list nat) (n : nat) : option (list nat) :=
-  if n =? 0 then Some slots
-  else
-    let chars := n mod PAGE in
-    let '(slots1, rest) :=
-      match slots with
-      | l :: r => if (0 <? chars) && (l + chars <=? PAGE) then ((l + chars) :: r, n - chars) else (slots, n)
-      | [] => (slots, n)
-      end in
-    let slots2 := (if rest mod PAGE =? 0 then [] else [rest mod PAGE]) ++ repeat PAGE (rest / PAGE) ++ slots1 in
-    if length slots2 <=? NSLOTS then Some slots2 else None.
-
 Inductive stream := Out | Err.
 
 (* the four settings of a step that matter here *)
@@ -50,7 +33,7 @@ Definition P_STDOUT := 0.
 Definition P_STDERR := 1.
 Definition p_log (k : nat) := 2 + k.
 
-Inductive leaf := LBuf (b : nat) | LPipe.
+Inductive leaf := LBuf (b : nat) | LCap.        (* a bufio writer, or the capture buffer of `output:` *)
 (* what exec.Cmd copies a stream into: a lone bufio.Writer (io.Copy finds ReadFrom) or a MultiWriter *)
 Inductive wire := WDirect (b : nat) | WMulti (l : list leaf).
 
@@ -74,9 +57,7 @@ Record st := {
   nd : node;
   w_out : wire; w_err : wire;     (* wiring of the running attempt (setupExec) *)
   shared : bool;                  (* Stdout == Stderr: one pipe, one copying goroutine *)
-  pipe : bytes;                   (* capture pipe of the running attempt *)
-  pslots : list nat;              (* fill of its slots, newest first *)
-  blocked : bool;                 (* a write into the full pipe never returns *)
+  capbuf : bytes;                 (* capture buffer of the running attempt (bytes.Buffer: takes any amount) *)
   brk_o : bool; brk_e : bool;     (* the copying goroutine of the stream stopped on a write error *)
   logpath : nat;                  (* State.Log *)
   outvar : option bytes           (* bytes read from the capture pipe after the last finished attempt *)
@@ -91,26 +72,26 @@ Definition buf (s : st) (b : nat) : bufw := mget no_buf (bufs s) b.
 Definition init : st :=
   {| disk := []; fds := []; nfd := 0; bufs := []; nbuf := 0;
      nd := {| n_logW := None; n_outW := None; n_errW := None; n_logF := None; n_outF := None; n_done := false |};
-     w_out := WMulti []; w_err := WMulti []; shared := true; pipe := []; pslots := []; blocked := false;
+     w_out := WMulti []; w_err := WMulti []; shared := true; capbuf := [];
      brk_o := false; brk_e := false; logpath := 0; outvar := None |}.
 
 Definition set_disk (s : st) d := {| disk := d; fds := fds s; nfd := nfd s; bufs := bufs s; nbuf := nbuf s; nd := nd s;
-  w_out := w_out s; w_err := w_err s; shared := shared s; pipe := pipe s; pslots := pslots s; blocked := blocked s; brk_o := brk_o s; brk_e := brk_e s;
+  w_out := w_out s; w_err := w_err s; shared := shared s; capbuf := capbuf s; brk_o := brk_o s; brk_e := brk_e s;
   logpath := logpath s; outvar := outvar s |}.
 Definition set_fds (s : st) f n := {| disk := disk s; fds := f; nfd := n; bufs := bufs s; nbuf := nbuf s; nd := nd s;
-  w_out := w_out s; w_err := w_err s; shared := shared s; pipe := pipe s; pslots := pslots s; blocked := blocked s; brk_o := brk_o s; brk_e := brk_e s;
+  w_out := w_out s; w_err := w_err s; shared := shared s; capbuf := capbuf s; brk_o := brk_o s; brk_e := brk_e s;
   logpath := logpath s; outvar := outvar s |}.
 Definition set_bufs (s : st) f n := {| disk := disk s; fds := fds s; nfd := nfd s; bufs := f; nbuf := n; nd := nd s;
-  w_out := w_out s; w_err := w_err s; shared := shared s; pipe := pipe s; pslots := pslots s; blocked := blocked s; brk_o := brk_o s; brk_e := brk_e s;
+  w_out := w_out s; w_err := w_err s; shared := shared s; capbuf := capbuf s; brk_o := brk_o s; brk_e := brk_e s;
   logpath := logpath s; outvar := outvar s |}.
 Definition set_nd (s : st) n := {| disk := disk s; fds := fds s; nfd := nfd s; bufs := bufs s; nbuf := nbuf s; nd := n;
-  w_out := w_out s; w_err := w_err s; shared := shared s; pipe := pipe s; pslots := pslots s; blocked := blocked s; brk_o := brk_o s; brk_e := brk_e s;
+  w_out := w_out s; w_err := w_err s; shared := shared s; capbuf := capbuf s; brk_o := brk_o s; brk_e := brk_e s;
   logpath := logpath s; outvar := outvar s |}.
-Definition set_exec (s : st) wo we sh pp ps bl bo be := {| disk := disk s; fds := fds s; nfd := nfd s; bufs := bufs s; nbuf := nbuf s;
-  nd := nd s; w_out := wo; w_err := we; shared := sh; pipe := pp; pslots := ps; blocked := bl; brk_o := bo; brk_e := be;
+Definition set_exec (s : st) wo we sh cb bo be := {| disk := disk s; fds := fds s; nfd := nfd s; bufs := bufs s; nbuf := nbuf s;
+  nd := nd s; w_out := wo; w_err := we; shared := sh; capbuf := cb; brk_o := bo; brk_e := be;
   logpath := logpath s; outvar := outvar s |}.
 Definition set_log (s : st) lp ov := {| disk := disk s; fds := fds s; nfd := nfd s; bufs := bufs s; nbuf := nbuf s; nd := nd s;
-  w_out := w_out s; w_err := w_err s; shared := shared s; pipe := pipe s; pslots := pslots s; blocked := blocked s; brk_o := brk_o s; brk_e := brk_e s;
+  w_out := w_out s; w_err := w_err s; shared := shared s; capbuf := capbuf s; brk_o := brk_o s; brk_e := brk_e s;
   logpath := lp; outvar := ov |}.
 
 (* ---- files ---------------------------------------------------------------------------------------- *)
@@ -169,30 +150,26 @@ Definition bw_readfrom (s : st) (b : nat) (p : bytes) : st * bool :=
   if bw_err w then (s, false)
   else match bw_buf w with [] => bw_raw s b p [] | _ => bw_write s b p end.
 
-(* ---- MultiWriter: each leaf in order, stop at the first error; a full pipe blocks for good -------------- *)
+(* ---- MultiWriter: each leaf in order, stop at the first error ----------------------------------------------- *)
 Fixpoint write_leaves (s : st) (l : list leaf) (p : bytes) : st * bool :=
   match l with
   | [] => (s, true)
   | LBuf b :: r => let '(s1, ok) := bw_write s b p in if ok then write_leaves s1 r p else (s1, false)
-  | LPipe :: r =>
-      match pipe_put (pslots s) (length p) with
-      | Some ps => write_leaves (set_exec s (w_out s) (w_err s) (shared s) (pipe s ++ p) ps (blocked s) (brk_o s) (brk_e s)) r p
-      | None => (set_exec s (w_out s) (w_err s) (shared s) (pipe s) (pslots s) true (brk_o s) (brk_e s), true)
-      end
+  | LCap :: r => write_leaves (set_exec s (w_out s) (w_err s) (shared s) (capbuf s ++ p) (brk_o s) (brk_e s)) r p
   end.
 
 Definition broken_of (s : st) (x : stream) : bool :=
   match x with Out => brk_o s | Err => if shared s then brk_o s else brk_e s end.
 Definition set_broken (s : st) (x : stream) : st :=
   match x with
-  | Out => set_exec s (w_out s) (w_err s) (shared s) (pipe s) (pslots s) (blocked s) true (brk_e s)
-  | Err => if shared s then set_exec s (w_out s) (w_err s) (shared s) (pipe s) (pslots s) (blocked s) true (brk_e s)
-           else set_exec s (w_out s) (w_err s) (shared s) (pipe s) (pslots s) (blocked s) (brk_o s) true
+  | Out => set_exec s (w_out s) (w_err s) (shared s) (capbuf s) true (brk_e s)
+  | Err => if shared s then set_exec s (w_out s) (w_err s) (shared s) (capbuf s) true (brk_e s)
+           else set_exec s (w_out s) (w_err s) (shared s) (capbuf s) (brk_o s) true
   end.
 
 (* one chunk read from the child's stream x is copied into its wiring *)
 Definition deliver (s : st) (x : stream) (p : bytes) : st :=
-  if blocked s || broken_of s x then s
+  if broken_of s x then s
   else
     let w := match x with Out => w_out s | Err => w_err s end in
     let '(s1, ok) := match w with WDirect b => bw_readfrom s b p | WMulti l => write_leaves s l p end in
@@ -203,7 +180,7 @@ Definition setup (c : cfg) (k : nat) (s : st) : st :=
   let '(s1, lf) := open s (p_log k) in
   let '(s2, lw) := new_buf s1 lf in
   let n2 := {| n_logW := Some lw; n_outW := n_outW (nd s2); n_errW := n_errW (nd s2);
-               n_logF := Some lf; n_outF := n_outF (nd s2); n_done := n_done (nd s2) |} in
+               n_logF := Some lf; n_outF := n_outF (nd s2); n_done := false |} in       (* 8880f0d: n.done = false *)
   let s3 := set_log (set_nd s2 n2) (p_log k) (outvar s2) in
   let s5 :=
     if c_stdout c then
@@ -224,7 +201,7 @@ Definition wire_out (c : cfg) (n : node) : wire :=
   | None => WMulti []
   | Some lw =>
       let base := match n_outW n with Some ow => [LBuf lw; LBuf ow] | None => [LBuf lw] end in
-      if c_output c then WMulti (base ++ [LPipe])
+      if c_output c then WMulti (base ++ [LCap])
       else match n_outW n with Some _ => WMulti base | None => WDirect lw end
   end.
 Definition wire_err (c : cfg) (n : node) : wire :=
@@ -232,11 +209,11 @@ Definition wire_err (c : cfg) (n : node) : wire :=
 Definition is_shared (n : node) : bool := match n_errW n with Some _ => false | None => true end.
 
 Definition exec_start (c : cfg) (s : st) : st :=
-  set_exec s (wire_out c (nd s)) (wire_err c (nd s)) (is_shared (nd s)) [] [] false false false.
+  set_exec s (wire_out c (nd s)) (wire_err c (nd s)) (is_shared (nd s)) [] false false.
 
-(* after cmd.Run: the capture pipe is drained (only now) *)
+(* after cmd.Run (which has waited for the copying goroutines) the capture buffer is read *)
 Definition exec_end (c : cfg) (s : st) : st :=
-  if c_output c && negb (blocked s) then set_log s (logpath s) (Some (pipe s)) else s.
+  if c_output c then set_log s (logpath s) (Some (capbuf s)) else s.
 
 Definition flush_opt (s : st) (o : option nat) : st := match o with Some b => fst (bw_flush s b) | None => s end.
 Definition close_opt (s : st) (o : option nat) : st := match o with Some f => close s f | None => s end.
@@ -255,9 +232,7 @@ Definition chunk := (stream * bytes)%type.
 
 Inductive act := ASetup (k : nat) | AStart | AChunk (x : stream) (p : bytes) | AEnd | ATeardown.
 
-(* once a write blocks on the full pipe the worker never moves again *)
 Definition step (c : cfg) (s : st) (a : act) : st :=
-  if blocked s then s else
   match a with
   | ASetup k => setup c k s
   | AStart => exec_start c s
@@ -270,17 +245,15 @@ Definition exec (c : cfg) (s : st) (acts : list act) : st := fold_left (step c) 
 Definition body (k : nat) (cs : list chunk) : list act :=
   ASetup k :: AStart :: map (fun ch => AChunk (fst ch) (snd ch)) cs ++ [AEnd].
 
-Definition insert_at {X} (d : nat) (x : X) (l : list X) : list X := firstn d l ++ x :: skipn d l.
-
-(* attempts in order; lates[i] = how many actions of the later attempts run before the (stale) worker of
-   attempt i gets to its teardown (0 = at once, the usual order) *)
-Fixpoint program (k : nat) (atts : list (list chunk)) (lates : list nat) : list act :=
+(* attempts in order: the worker of every attempt tears down before the node can be launched again
+   (scheduler.go: teardown() precedes setStatus(NodeStatusNone); its deferred second call is a no-op) *)
+Fixpoint program (k : nat) (atts : list (list chunk)) : list act :=
   match atts with
   | [] => []
-  | cs :: rest => body k cs ++ insert_at (hd 0 lates) ATeardown (program (S k) rest (tl lates))
+  | cs :: rest => body k cs ++ ATeardown :: program (S k) rest
   end.
 
-Definition run (c : cfg) (atts : list (list chunk)) (lates : list nat) : st := exec c init (program 0 atts lates).
+Definition run (c : cfg) (atts : list (list chunk)) : st := exec c init (program 0 atts).
 
 (* ---- what the property speaks of ------------------------------------------------------------------------ *)
 Definition out_of (cs : list chunk) : bytes := flat_map (fun ch => match fst ch with Out => snd ch | Err => [] end) cs.
@@ -297,15 +270,15 @@ Inductive is_merge : bytes -> bytes -> bytes -> Prop :=
 | merge_l : forall a x y z, is_merge x y z -> is_merge (a :: x) y (a :: z)
 | merge_r : forall a x y z, is_merge x y z -> is_merge x (a :: y) (a :: z).
 
-(* The worker got to its end (no write blocked for good) and
+(* When the worker of the last attempt is gone
    - the file named by State.Log holds exactly the bytes of the last attempt that go towards the log, in arrival
      order (an order-preserving merge of its stdout and - unless `stderr:` is set - its stderr, see log_of_merge);
    - the `stdout:` file ends with the same sequence (setupExec wires stderr into the same MultiWriter, so the
      file holds every stdout byte, in order, possibly interleaved with stderr bytes);
-   - the `stderr:` file ends with every stderr byte. *)
+   - the `stderr:` file ends with every stderr byte.
+   (In the model a worker always gets to its end: no write can block any more.) *)
 Definition complete (c : cfg) (cs : list chunk) (s : st) : Prop :=
-  blocked s = false
-  /\ dsk s (logpath s) = log_of c cs
+  dsk s (logpath s) = log_of c cs
   /\ (c_stdout c = true -> is_suffix (log_of c cs) (dsk s P_STDOUT))
   /\ (c_stderr c = true -> is_suffix (err_of cs) (dsk s P_STDERR)).
 
